@@ -38,17 +38,19 @@ confirmed = with_change != 0 and without_change == 0 and tests_ok
 print(f"demo with change: {with_change}, without: {without_change}, tests ok: {tests_ok} ({tests.stdout.strip()[-60:]})")
 results = {}
 if confirmed:
-    p = subprocess.run(f"git -C /repo apply {patch}", shell=True, capture_output=True, text=True)
+    # the checks are pointed at the scratch worktree (TEMPREN_REPO), /repo itself is never touched
+    p = subprocess.run(f"git apply {patch}", cwd=wt, shell=True, capture_output=True, text=True)
     assert p.returncode == 0, p.stderr
     try:
         for c in checks:
             t = time.time()
-            q = subprocess.run(f"/venv/bin/python check.py {c} --tier quick", cwd="/verif", shell=True, capture_output=True, text=True, timeout=3000)
+            q = subprocess.run(f"/venv/bin/python check.py {c} --tier quick", cwd="/verif", shell=True, capture_output=True, text=True, timeout=3000,
+                               env=dict(os.environ, TEMPREN_REPO=wt))
             lines = [l for l in q.stdout.split("\n") if l.startswith("VIOLATION") or l.startswith("  ") or l.startswith("OK")]
             results[c] = {"exit": q.returncode, "lines": lines[-4:], "s": round(time.time() - t, 1)}
             print(c, q.returncode, lines[-3:])
     finally:
-        subprocess.run("git -C /repo checkout -- . && /venv/bin/python /verif/harness/extract.py > /dev/null", shell=True)
+        subprocess.run(f"git -C {wt} checkout -- . && /venv/bin/python /verif/harness/extract.py > /dev/null", shell=True)
 dest = f"/verif/seeded/{pid}-{n or '1'}"
 if confirmed:
     os.makedirs(dest, exist_ok=True)
